@@ -143,13 +143,25 @@ pub fn order_of(v: &Value) -> OrderType<()> {
 }
 
 pub fn order_json(o: &OrderType<()>) -> Value {
-    let tif = o.time_in_force().to_string();
+    // rendered here, not by the library's Display (the code under test)
+    let tif = match o.time_in_force() {
+        TimeInForce::Gtc => "GTC".to_string(),
+        TimeInForce::Ioc => "IOC".to_string(),
+        TimeInForce::Fok => "FOK".to_string(),
+        TimeInForce::Day => "DAY".to_string(),
+        TimeInForce::Gtd(n) => format!("GTD-{n}"),
+    };
     let (kind, thr, amt, auto, par) = match o {
         OrderType::Standard { .. } => ("Standard", 0, -1, false, tif),
         OrderType::IcebergOrder { .. } => ("Iceberg", 0, -1, false, tif),
         OrderType::PostOnly { .. } => ("PostOnly", 0, -1, false, tif),
         OrderType::TrailingStop { trail_amount, last_reference_price, .. } => ("TrailingStop", 0, -1, false, format!("{tif}|{trail_amount}|{last_reference_price}")),
-        OrderType::PeggedOrder { reference_price_offset, reference_price_type, .. } => ("Pegged", 0, -1, false, format!("{tif}|{reference_price_offset}|{reference_price_type}")),
+        OrderType::PeggedOrder { reference_price_offset, reference_price_type, .. } => ("Pegged", 0, -1, false, format!("{tif}|{reference_price_offset}|{}", match reference_price_type {
+            PegReferenceType::BestBid => "BestBid",
+            PegReferenceType::BestAsk => "BestAsk",
+            PegReferenceType::MidPrice => "MidPrice",
+            PegReferenceType::LastTrade => "LastTrade",
+        })),
         OrderType::MarketToLimit { .. } => ("MarketToLimit", 0, -1, false, tif),
         OrderType::ReserveOrder { replenish_threshold, replenish_amount, auto_replenish, .. } => {
             ("Reserve", sint(*replenish_threshold), replenish_amount.map(sint).unwrap_or(-1), *auto_replenish, tif)
